@@ -4,6 +4,7 @@ package main
 // tagged with the property, run the spec lemmas tagged with it, classify, replay, write evidence, set exit code.
 
 import (
+	"runtime"
 	"bytes"
 	"encoding/json"
 	"flag"
@@ -193,7 +194,9 @@ func cmdCheck(args []string) {
 		}
 	}
 	if len(retry) > 0 {
-		P.discharge(retry, 2*secs, false, 3)
+		// the budget is wall-clock time: on a machine whose run queue is longer than its cores each solver gets a
+		// fraction of it, so the retry budget is scaled by the load (at most 6 times)
+		P.discharge(retry, 2*secs*loadFactor(), false, 3)
 	}
 	undecidedFns := map[string][]string{}
 	for _, fr := range frs {
@@ -629,6 +632,9 @@ func (P *Program) describeAssumption(a string) string {
 	if strings.HasPrefix(a, "CLOSURE-SPEC:") {
 		return "note (not an assumption): closure " + strings.TrimPrefix(a, "CLOSURE-SPEC:") + " is summarised by its own verified contract at the use site"
 	}
+	if strings.HasPrefix(a, "UNTRACKED-FIELD:") {
+		return "note (not an assumption): cell " + strings.TrimPrefix(a, "UNTRACKED-FIELD:") + " is written, no contract, spec or property configuration mentions that field: implicitly in `modifies`, no frame obligation"
+	}
 	if strings.HasPrefix(a, "ASSUMED-CLAUSE:") {
 		return "assumed clause (at call sites only, body not obliged to establish it) " + strings.TrimPrefix(a, "ASSUMED-CLAUSE:")
 	}
@@ -730,4 +736,21 @@ func safeGenVC(P *Program, con *Contract) (fr *FuncResult) {
 	}()
 	fr, _ = P.genVC(con)
 	return fr
+}
+
+func loadFactor() int {
+	d, err := os.ReadFile("/proc/loadavg")
+	if err != nil {
+		return 1
+	}
+	var l1 float64
+	fmt.Sscanf(string(d), "%f", &l1)
+	f := int(l1/float64(runtime.NumCPU()) + 0.5)
+	if f < 1 {
+		f = 1
+	}
+	if f > 6 {
+		f = 6
+	}
+	return f
 }
